@@ -268,10 +268,12 @@ def enum_cases(tier):
     """(clause, lines or enum model, valid twin enum model or None)"""
     out = []
 
-    def lit_enum(name, bits, exh, variants, attrs=()):
+    def lit_enum(name, bits, exh, variants, attrs=(), exh_first=False):
         args = ["u%d" % bits]
         if exh is not None:
             args.append("exhaustive = %s" % exh)
+        if exh_first:
+            args.reverse()
         lines = ["/// must-fail enum", "#[bitenum(%s)]" % ", ".join(args), "#[derive(Debug, PartialEq, Eq)]"]
         lines += list(attrs)
         lines.append("pub enum %s {" % name)
@@ -301,6 +303,13 @@ def enum_cases(tier):
         out.append(("discriminant 2^N", lit_enum("E", N, "false", [("A", "0", None), ("B", "%d" % full, None)][: 2 if full > 2 else 1] if full > 2 else [("B", "%d" % full, None)]),
                     mk_enum("x", "E", N, [0, full - 1] if full > 2 else [full - 1])))
         out.append(("discriminant 2^N+1", lit_enum("E", N, "false", [("B", "%d" % (full + 1), None)]), mk_enum("x", "E", N, [full - 1])))
+    # the count rules with the arguments written in the other order
+    for N in (1, 2, 3):
+        full = 1 << N
+        out.append(("exhaustive=true written before uN, 2^N-1 variants", lit_enum("E", N, "true", seq(full - 1), exh_first=True), mk_enum("x", "E", N, list(range(full - 1)))))
+        out.append(("exhaustive=false written before uN, all 2^N variants", lit_enum("E", N, "false", seq(full), exh_first=True), mk_enum("x", "E", N, list(range(full)))))
+        out.append(("exhaustive=conditional written before uN, discriminant 2^N", lit_enum("E", N, "conditional", [("A", "0", None), ("B", "%d" % full, "#[cfg(all())]")], exh_first=True),
+                    mk_enum("x", "E", N, [0, full - 1])))
     # an explicit #[repr(..)] (the storage integer or a wider one) does not relax any rule: rustc then checks the
     # discriminants against the repr type only, the 2^N bound stays the macro's job
     for N, rp in ((1, "u8"), (2, "u8"), (3, "u8"), (7, "u8"), (2, "u16"), (9, "u16"), (12, "u16"), (15, "u16"), (17, "u32"), (24, "u32"), (31, "u32"), (33, "u64"), (48, "u64"), (63, "u64")):
@@ -644,6 +653,21 @@ def build_negative(tier, seed):
         s2 = struct(mod, "W", 16, fs, family="TWIN", debug=False, default={"form": "=", "value": 0})
         twin.add(s2)
     crates.append(negt)
+    # ---- rejections that only the const evaluator makes (a still later phase: separate crate again): a default that
+    # does not fit the declared base would be state above bit N-1 from the very first value on (C11, C06)
+    negk = Crate("neg_const_0", kind="neg")
+    for i, (base, form, val) in enumerate([(24, "=", 1 << 24), (24, "const=", 0x8100_0123), (24, "const:", (1 << 32) - 1), (7, "=", 0x80), (7, "const=", 0xFF),
+                                           (12, "const=", 0x1000), (12, ":", 0xFFFF), (48, "const=", 1 << 48), (48, "=", (1 << 64) - 1), (65, "const=", 1 << 65),
+                                           (100, "const:", 1 << 127), (127, "=", 1 << 127), (127, "const=", (1 << 128) - 1), (1, "const=", 2), (33, "const=", 1 << 33)]):
+        mod = "k%d" % i
+        fs = [field("lo", [(0, 0)], T_bool()), field("top", [(base - 1, base - 1)], T_bool(), access="r")]
+        sk = struct(mod, "W", base, fs, family="NEG", default={"form": form, "value": val})
+        from corpus import imports_of
+        negk.add(raw_item(mod, "W", render_struct(sk), "C11", "default %s 0x%x does not fit u%d (%s)" % ("constant" if form.startswith("const") else "literal", val, base, form),
+                          extra={"imports": sorted(imports_of(sk))}))
+        s2 = struct(mod, "W", base, fs, family="TWIN", default={"form": form, "value": val & ((1 << base) - 1) | 1})
+        twin.add(s2)
+    crates.append(negk)
     # ---- enums (C10)
     nege = Crate("neg_enum_0", kind="neg")
     for i, (clause, lines, good) in enumerate(enum_cases(tier)):
